@@ -354,6 +354,7 @@ fn exec(cfg: &Cfg, render: bool) -> RunOutput {
 
 // ------------------------------------------------------------------ late operations under tokio's cooperative budget
 
+const HOWS: [&str; 4] = ["transport failure", "peer Close", "invalid frame", "peer Close with the transport left open (client-role WebSocket, silent peer)"];
 const W_LATE_OPS: u64 = 128;
 const W_BUDGET_YIELD: u64 = 256;
 
@@ -390,6 +391,13 @@ async fn late_ops_async(n: usize, how: u8, render: bool) -> RunOutput {
                 match how {
                     0 => w.sim.link.cut(1),
                     1 => raw.send_msg(Message::Close),
+                    3 => {
+                        // the subject is the WebSocket client: after the peer's Close its source stays open until the
+                        // peer tears the transport down -- and this peer (frozen host, partition right behind its
+                        // Close, balancer that leaves the TCP close to the client) never does
+                        w.sim.link.lock().linger_after_close[0] = true;
+                        raw.send_msg(Message::Close);
+                    }
                     _ => raw.send_bytes(&[0x7f, 0, 0, 0, 1]),
                 }
                 // ... the application drops every stream it holds, at once ...
@@ -449,7 +457,7 @@ async fn late_ops_async(n: usize, how: u8, render: bool) -> RunOutput {
         push_viol(
             &mut viol,
             "late.hang",
-            format!("the connection ended ({}) with {n} streams being dropped at the same time; operations issued right then never completed: {pend:?} (connection task finished: {}, needed {task_polls_after_fault} polls after the end)", ["transport failure", "peer Close", "invalid frame"][usize::from(how.min(2))], w.task_done(0)),
+            format!("the connection ended ({}) with {n} streams being dropped at the same time; operations issued right then never completed: {pend:?} (connection task finished: {}, needed {task_polls_after_fault} polls after the end)", HOWS[usize::from(how.min(3))], w.task_done(0)),
         );
     }
     if !w.task_done(0) {
@@ -509,8 +517,8 @@ pub fn run(args: &Args) -> Report {
         cases.push(Case { try_unbounded: false, max_k, label: format!("{} scenario rwnd={:?} cap={} variant={}", if cfg.variant == 2 { "lean" } else { "busy" }, cfg.rwnd, cfg.cap, cfg.variant), exec: Box::new(move |r| exec(&cfg, r)) });
     }
     for n in if thorough { vec![0usize, 3, 127, 129, 140, 300] } else { vec![3usize, 140] } {
-        for how in 0..3u8 {
-            cases.push(Case { try_unbounded: false, max_k: if n > 10 { 1 } else { u32::MAX }, label: format!("late operations: {n} streams dropped when the connection ends by {}", ["transport failure", "peer Close", "invalid frame"][usize::from(how)]), exec: Box::new(move |r| exec_late(n, how, r)) });
+        for how in 0..4u8 {
+            cases.push(Case { try_unbounded: false, max_k: if n > 10 { 1 } else { u32::MAX }, label: format!("late operations: {n} streams dropped when the connection ends by {}", HOWS[usize::from(how)]), exec: Box::new(move |r| exec_late(n, how, r)) });
         }
     }
     let plan = Plan {
@@ -533,7 +541,7 @@ pub fn run(args: &Args) -> Report {
             ("teardown_yielded_on_cooperative_budget", W_BUDGET_YIELD),
         ],
     };
-    rep.rule = "psim: busy two-endpoint scenario (stream with a writer blocked on credit and a blocked reader, a stream request in handshake, accept loops, pending get_datagram on both sides, a bind request that is never answered and one that is, datagrams, half-closes); at EVERY scheduling point (and at quiescence) of every schedule with <= k deviations each fault of {cut a->b, cut b->a, cut both, drop Multiplexor A, drop Multiplexor B} is injected once, then the system runs to quiescence: no application future and no task future may be left pending, reads only ever return delivered prefix then 0, failed writes are BrokenPipe, failed multiplexor calls are Closed (bind: false/Closed), and for a drop over a healthy transport every accepted write/Finish/datagram of that side is on the wire, in order, before exactly one final Close. Second part (\"late operations\"): n streams open against a raw peer; the connection ends (transport failure / peer Close / invalid frame) while the application drops all n streams at once and immediately issues new_stream_channel, request_bind, send_datagram, get_datagram and accept; executed inside a tokio runtime with the real per-poll cooperative budget (a teardown with more than 128 pending notifications yields in the middle); every late operation must complete with Closed".into();
+    rep.rule = "psim: busy two-endpoint scenario (stream with a writer blocked on credit and a blocked reader, a stream request in handshake, accept loops, pending get_datagram on both sides, a bind request that is never answered and one that is, datagrams, half-closes); at EVERY scheduling point (and at quiescence) of every schedule with <= k deviations each fault of {cut a->b, cut b->a, cut both, drop Multiplexor A, drop Multiplexor B} is injected once, then the system runs to quiescence: no application future and no task future may be left pending, reads only ever return delivered prefix then 0, failed writes are BrokenPipe, failed multiplexor calls are Closed (bind: false/Closed), and for a drop over a healthy transport every accepted write/Finish/datagram of that side is on the wire, in order, before exactly one final Close. Second part (\"late operations\"): n streams open against a raw peer; the connection ends (transport failure / peer Close / invalid frame / peer Close after which the transport stays open and silent, as a client-role WebSocket sees it from a peer that froze right behind its Close) while the application drops all n streams at once and immediately issues new_stream_channel, request_bind, send_datagram, get_datagram and accept; executed inside a tokio runtime with the real per-poll cooperative budget (a teardown with more than 128 pending notifications yields in the middle); every late operation must complete with Closed".into();
     rep.assumptions = vec![
         "a cut is a reported failure (sender's sink errors, receiver's source yields one error then ends); a silent one-directional loss without keepalive is indistinguishable from a slow peer and is C16's subject (keepalive)".into(),
         "dropping a Multiplexor first cancels the application futures that still borrow it (safe Rust cannot do otherwise); streams already handed out live on".into(),
